@@ -110,10 +110,39 @@ def numeric_start(tok):
     return tok[0] in '0123456789.+-'
 
 
+def repo_helper(module, name):
+    '''A helper of the repository that is NOT one of the functions the anchors
+    of C15 name (get_cells, get_ast, normalize_transform, normalize_float ...):
+    where it lives, else the name as imported by ParseMCNPCell.py, else None
+    (the deck is then left out of tie:deck and counted; the sweeps through the
+    public entry points still run).'''
+    import importlib
+    for mod in (module, 't4_geom_convert.Kernel.FileHandlers.Parser.'
+                        'ParseMCNPCell'):
+        try:
+            fun = getattr(importlib.import_module(mod), name, None)
+        except Exception:                      # pylint: disable=broad-except
+            fun = None
+        if fun is not None:
+            return fun
+    return None
+
+
+def repo_to_float():
+    '''datacard.to_float, a helper outside the anchors: when a rewrite moved or
+    renamed it, fall back to the reading it implements (float(), then the
+    Fortran spellings) — the tie through ParseMCNPCell.parse() still decides.'''
+    try:
+        from MIP.mip.datacard import to_float
+        return to_float
+    except Exception:                          # pylint: disable=broad-except
+        return impl.mcnp_float
+
+
 def readings(tok):
     '''(to_float(tok), int(float(tok)), int(to_float(tok))) with the
     repository's to_float; None where the call raises.'''
-    from MIP.mip.datacard import to_float
+    to_float = repo_to_float()
 
     def attempt(fun):
         try:
@@ -145,15 +174,29 @@ class ImplDeck:
     '''Everything observed on the implementation for one deck text.'''
 
     def __init__(self, text, lattice_params=None):
-        from MIP.geom.cells import get_cells
-        from MIP.geom.parsegeom import get_ast
         from MIP.mip import cellcard
         from t4_geom_convert.Kernel.FileHandlers.Parser.ParseMCNPCell import \
             ParseMCNPCell
-        from t4_geom_convert.Kernel.Transformation.Transformation import \
-            normalize_transform
-        from t4_geom_convert.Kernel.Utils import normalize_float
-        from MIP.mip.datacard import to_float
+        # helpers outside the anchors of C15 are looked up tolerantly
+        get_cells = repo_helper('MIP.geom.cells', 'get_cells')
+        get_ast = repo_helper('MIP.geom.parsegeom', 'get_ast')
+        normalize_transform = repo_helper(
+            't4_geom_convert.Kernel.Transformation.Transformation',
+            'normalize_transform')
+        normalize_float = repo_helper('t4_geom_convert.Kernel.Utils',
+                                      'normalize_float')
+        to_float = repo_to_float()
+        self.tie_skip = [name for name, fun in (
+            ('get_ast', get_ast), ('normalize_transform', normalize_transform),
+            ('normalize_float', normalize_float)) if fun is None]
+        if get_cells is None:
+            def get_cells(parser, lim=None):
+                from collections import OrderedDict
+                out = OrderedDict()
+                for card in parser.cards(blocks='c', skipcomments=True):
+                    name, mat, geom, opts = card.parts()
+                    out[int(name)] = (mat, geom, opts)
+                return out
         self.text = text
         self.lattice_params = lattice_params or {}
         self.setup_error = None
@@ -174,9 +217,18 @@ class ImplDeck:
                 self.setup_error = exc
                 self.result = ('err', exc_class(exc), repr(exc)[:200])
                 return
-            self.importances = list(pcell.importances)
-            self.transforms = {k: list(v[:12])
-                               for k, v in pcell.transforms.items()}
+            # instance attributes set by __init__; recomputed through the
+            # public functions when a rewrite renamed them
+            imps = getattr(pcell, 'importances', None)
+            if imps is None:
+                imps = pcell.parse_importance_cards()
+            trs = getattr(pcell, 'transforms', None)
+            if trs is None:
+                from t4_geom_convert.Kernel.Transformation.Transformation \
+                    import get_mcnp_transforms
+                trs = get_mcnp_transforms(parser)
+            self.importances = list(imps)
+            self.transforms = {k: list(v[:12]) for k, v in trs.items()}
             import contextlib
             import io
             try:
@@ -195,7 +247,7 @@ class ImplDeck:
                 continue
             if geom not in AST_CACHE:
                 try:
-                    AST_CACHE[geom] = repr(get_ast(geom))
+                    AST_CACHE[geom] = repr(get_ast(geom)) if get_ast else None
                 except Exception:              # pylint: disable=broad-except
                     AST_CACHE[geom] = None
             self.ast[geom] = AST_CACHE[geom]
@@ -238,11 +290,14 @@ class ImplDeck:
             if r is not None:
                 self.num[tok] = r
             try:
-                self.nf[tok] = normalize_float(tok)
+                if normalize_float is not None:
+                    self.nf[tok] = normalize_float(tok)
             except Exception:                  # pylint: disable=broad-except
                 pass
         self.norm = []
         seen_keys = set()
+        if normalize_transform is None:
+            return
         try:
             self.norm.append(([], ('ok', [float(v) for v in
                                           normalize_transform([])])))
@@ -311,12 +366,15 @@ def coq_bounds(bounds):
     return clist(cpair(cz(lo), cz(hi)) for lo, hi in bounds)
 
 
+def is_lattice_spec(fid):
+    return hasattr(fid, 'bounds') and hasattr(fid, 'spec')
+
+
 def coq_cell(cell):
-    from t4_geom_convert.Kernel.Volume.Lattice import LatticeSpec
     fid = cell.fillid
     if fid is None:
         fill = 'None'
-    elif isinstance(fid, LatticeSpec):
+    elif is_lattice_spec(fid):
         fill = (f'(Some (FillLat {coq_bounds(list(fid.bounds))} '
                 f'{clist(copt(u, cz) for u in fid.spec)}))')
     else:
@@ -358,9 +416,8 @@ def coq_case(obs):
 
 
 def cell_fields(cell):
-    from t4_geom_convert.Kernel.Volume.Lattice import LatticeSpec
     fid = cell.fillid
-    if isinstance(fid, LatticeSpec):
+    if is_lattice_spec(fid):
         fid = ('lat', list(fid.bounds), list(fid.spec))
     return {'material': cell.materialID, 'density': cell.density,
             'geometry': repr(cell.geometry), 'importance': cell.importance,
@@ -617,7 +674,10 @@ def gen_edge_deck(rng, base_deck, index=None):
 
 
 def edge_lattice_params(rng, deck):
-    from t4_geom_convert.Kernel.Volume.Lattice import parse_ranges
+    parse_ranges = repo_helper('t4_geom_convert.Kernel.Volume.Lattice',
+                               'parse_ranges')
+    if parse_ranges is None:       # not an anchor of C15: no --lattice cases
+        return {}
     params = {}
     for cell in deck['cells']:
         raw = str(cell.get('but', {}).get('raw', '')).lower()
@@ -742,27 +802,40 @@ def corpus_failures():
 def run(res, tier, seed, proofs_ok):
     '''Ties and sweeps under a line-coverage tracer restricted to the anchored
     functions: every reachable line must be executed by the tied calls.'''
-    import c15_cov
     global COV
-    cov = COV = c15_cov.LineCov(c15_cov.anchored_functions())
+    cov = None
+    try:
+        import c15_cov
+        cov = COV = c15_cov.LineCov(c15_cov.anchored_functions())
+    except Exception as exc:                   # pylint: disable=broad-except
+        COV = None                             # coverage is information only
+        res.extra['line_coverage_error'] = repr(exc)[:200]
     try:
         _run(res, tier, seed, proofs_ok)
     finally:
         COV = None
-    total, missing = cov.missing(c15_cov.UNREACHABLE)
-    res.obligation('coverage: the tied calls (cellcard.split, '
-                   'ParseMCNPCell.parse) execute every reachable line of the '
-                   f'anchored functions ({total} lines of {len(cov.codes)} code '
-                   'objects)', not missing, f'never executed: {missing[:6]}')
-    res.extra['anchored_lines'] = total
-    if missing:
-        res.violation('harness-error',
-                      'generated inputs no longer reach these lines of the '
-                      'anchored code (strengthen the generators): '
-                      f'{missing[:8]}',
-                      {'theorem_or_correspondence': 'coverage',
-                       'input': {'lines': [list(m) for m in missing[:30]]}},
-                      found_input=False)
+    if cov is None:
+        return
+    try:
+        total, missing = cov.missing(c15_cov.UNREACHABLE)
+        res.obligation('coverage: the tied calls (cellcard.split, '
+                       'ParseMCNPCell.parse) execute every reachable line of '
+                       f'the anchored functions ({total} lines of '
+                       f'{len(cov.codes)} code objects)', not missing,
+                       f'never executed: {missing[:6]}')
+        res.extra['anchored_lines'] = total
+        res.extra['anchored_names_missing'] = list(c15_cov.MISSING)
+        if missing:
+            res.violation('harness-error',
+                          'generated inputs no longer reach these lines of '
+                          'the anchored code (strengthen the generators): '
+                          f'{missing[:8]}',
+                          {'theorem_or_correspondence': 'coverage',
+                           'input': {'lines': [list(m) for m in
+                                               missing[:30]]}},
+                          found_input=False)
+    except Exception as exc:                   # pylint: disable=broad-except
+        res.extra['line_coverage_error'] = repr(exc)[:200]
 
 
 def _run(res, tier, seed, proofs_ok):
@@ -846,7 +919,10 @@ def _run(res, tier, seed, proofs_ok):
                           {'input': {'deck': text,
                                      'expanded': gen.render(gen.expand(deck))},
                            'oracle': kind}, cls=cls, found_input=True)
-        if obs.setup_error is None:
+        if obs.setup_error is None and getattr(obs, 'tie_skip', None):
+            res.count('tie-skipped:helper ' + ','.join(obs.tie_skip)
+                      + ' not present')
+        elif obs.setup_error is None:
             cases.append(coq_case(obs))
             meta.append((text, obs))
             for content, parts in obs.cards:
@@ -871,6 +947,10 @@ def _run(res, tier, seed, proofs_ok):
             continue
         res.count('edge-result:' + (obs.result[1] if obs.result[0] == 'err'
                                     else 'ok'))
+        if getattr(obs, 'tie_skip', None):
+            res.count('tie-skipped:helper ' + ','.join(obs.tie_skip)
+                      + ' not present')
+            continue
         cases.append(coq_case(obs))
         meta.append((text, obs))
         for content, parts in obs.cards:
